@@ -59,6 +59,15 @@ func c02Determinism(c *vlib.Ctx) {
 					in = in[:65536]
 				}
 				o := allOptionSets[r.Intn(16)]
+				if k == 0 && j < 8 && j/2 < len(cp.Seeds[t]) {
+					// the first seeds of the type as they are, decoded in place (NoCopy), eagerly and lazily: whatever else the
+					// PRNG picks, the well-formed packets of every protocol meet the read-only placement
+					in, how = cp.Seeds[t][j/2], "seed"
+					if len(in) > 65536 {
+						in = in[:65536]
+					}
+					o = gopacket.DecodeOptions{NoCopy: true, Lazy: j%2 == 1}
+				}
 				det := func() map[string]any {
 					return map[string]any{"first_layer": t.String(), "input_hex": hx(in), "mutation": how, "options": optString(o)}
 				}
